@@ -28,6 +28,14 @@
 #include <array>
 #include <sys/time.h>
 
+// which standard algorithms the iterators of each flavour can be handed to (bit mask: 1 copy, 8 copy_backward, 2 reverse/rotate,
+// 4 sort); set by the runner from compile probes (probe_algo.cpp)
+#ifndef PARSEQ_ALGO_OPT
+#define PARSEQ_ALGO_OPT 0
+#endif
+#ifndef PARSEQ_ALGO_CPLX
+#define PARSEQ_ALGO_CPLX 0
+#endif
 #ifndef PARSEQ_GROUP
 #define PARSEQ_GROUP 1
 #endif
@@ -290,6 +298,44 @@ template <class C, bool Enabled> struct fwd_ops
         size_t c = 0, n = x.size();
         for (auto it = x.cbegin(); it != x.cend() && c <= n + 4; ++it, ++c) { auto&& r = *it; f(r); }
     }
+    // standard algorithms over the iterators
+    template <int Mask, class Key> static void algo(C& x, const C& y, const std::string& alg, std::ptrdiff_t i, std::ptrdiff_t m, std::ptrdiff_t j, Key&& key)
+    {
+        if (!algo_copy(std::integral_constant<bool, (Mask & 1) != 0>(), x, y, alg, i, m, j)
+            && !algo_copybwd(std::integral_constant<bool, (Mask & 8) != 0>(), x, alg, i, m, j)
+            && !algo_swap(std::integral_constant<bool, (Mask & 2) != 0>(), x, alg, i, m, j)
+            && !algo_sort(std::integral_constant<bool, (Mask & 4) != 0>(), x, alg, i, j, key))
+            bad_script("algorithm not built into this driver:", alg);
+    }
+    static bool algo_copy(std::true_type, C& x, const C& y, const std::string& alg, std::ptrdiff_t i, std::ptrdiff_t m, std::ptrdiff_t j)
+    {
+        if (alg == "copy") std::copy(y.cbegin() + i, y.cbegin() + j, x.begin() + m);
+        else return false;
+        return true;
+    }
+    static bool algo_copy(std::false_type, C&, const C&, const std::string&, std::ptrdiff_t, std::ptrdiff_t, std::ptrdiff_t) { return false; }
+    static bool algo_copybwd(std::true_type, C& x, const std::string& alg, std::ptrdiff_t i, std::ptrdiff_t m, std::ptrdiff_t j)
+    {
+        if (alg == "copybwd") std::copy_backward(x.begin() + i, x.begin() + j, x.begin() + j + m);
+        else return false;
+        return true;
+    }
+    static bool algo_copybwd(std::false_type, C&, const std::string&, std::ptrdiff_t, std::ptrdiff_t, std::ptrdiff_t) { return false; }
+    static bool algo_swap(std::true_type, C& x, const std::string& alg, std::ptrdiff_t i, std::ptrdiff_t m, std::ptrdiff_t j)
+    {
+        if (alg == "reverse") std::reverse(x.begin() + i, x.begin() + j);
+        else if (alg == "rotate") std::rotate(x.begin() + i, x.begin() + m, x.begin() + j);
+        else return false;
+        return true;
+    }
+    static bool algo_swap(std::false_type, C&, const std::string&, std::ptrdiff_t, std::ptrdiff_t, std::ptrdiff_t) { return false; }
+    template <class Key> static bool algo_sort(std::true_type, C& x, const std::string& alg, std::ptrdiff_t i, std::ptrdiff_t j, Key&& key)
+    {
+        if (alg != "sort") return false;
+        std::sort(x.begin() + i, x.begin() + j, [&](const auto& p, const auto& q) { return key(p) < key(q); });
+        return true;
+    }
+    template <class Key> static bool algo_sort(std::false_type, C&, const std::string&, std::ptrdiff_t, std::ptrdiff_t, Key&&) { return false; }
 };
 template <class C> struct fwd_ops<C, false>
 {
@@ -298,6 +344,7 @@ template <class C> struct fwd_ops<C, false>
     template <class Rel> static std::string rel_m(C&, size_t, size_t, Rel&&) { bad_script("built without forward iterators for this type:", "iter"); }
     template <class Rel> static std::string rel_c(const C&, size_t, size_t, Rel&&) { bad_script("built without forward iterators for this type:", "citer"); }
     template <class Fn> static void each(const C&, Fn&&) {}
+    template <int Mask, class Key> static void algo(C&, const C&, const std::string& alg, std::ptrdiff_t, std::ptrdiff_t, std::ptrdiff_t, Key&&) { bad_script("built without forward iterators for this type:", alg); }
 };
 
 template <class C>
@@ -486,6 +533,13 @@ struct machine
                 else if (path == "criter") val = iter_rel(cx.crbegin(), cx.crend(), i, j);
                 else bad_script("bad iterator path", path);
             }
+            else if (op == "Algo")
+            {
+                C& x = O(k); const C& y = O(o);
+                auto key = [](const auto& r) { std::vector<long long> t; F::read(r, t); return std::make_pair(t[0], t[1]); };
+                constexpr int mask = std::is_same<typename I::tag, opt_tag>::value ? PARSEQ_ALGO_OPT : PARSEQ_ALGO_CPLX;
+                FW::template algo<mask>(x, y, a.str("alg"), std::ptrdiff_t(a.num("i")), std::ptrdiff_t(a.num("m")), std::ptrdiff_t(a.num("j")), key);
+            }
             else bad_script("unknown op", op);
         }
         catch (const std::out_of_range&) { exc = "out_of_range"; }
@@ -566,6 +620,13 @@ int main(int argc, char** argv)
     if (t == "ca3") return machine<xtl::xcomplex_array<double, 3>>().run();
     if (t == "ca66") return machine<xtl::xcomplex_array<double, 66>>().run();
     std::fprintf(stderr, "usage: driver {ov|oa3|oa70|cv|ca3|ca66} < script\n");
+#elif PARSEQ_GROUP == 3
+    // round 3: other flag containers and element types
+    if (t == "ovw") return machine<xtl::xoptional_vector<int, std::allocator<int>, xtl::xdynamic_bitset<std::uint16_t>>>().run();
+    if (t == "ovq") return machine<xtl::xoptional_vector<int, std::allocator<int>, xtl::xdynamic_bitset<std::uint32_t>>>().run();
+    if (t == "ovc") return machine<xtl::xoptional_vector<int, std::allocator<int>, std::vector<char>>>().run();
+    if (t == "cvf") return machine<xtl::xcomplex_vector<float>>().run();
+    std::fprintf(stderr, "usage: driver {ovw|ovq|ovc|cvf} < script\n");
 #else
     if (t == "ovd") return machine<xtl::xoptional_vector<double>>().run();
     if (t == "ovb") return machine<xtl::xoptional_vector<int, std::allocator<int>, std::vector<bool>>>().run();
